@@ -245,3 +245,22 @@ PROPS = {
         exhaustive=dict(quick=False, thorough=False),
         assumptions=['reference expansion treegen.h', 'zoo.h liveness model', 'runtime states exhaustive over the 8 pruning bits only']),
 }
+
+
+# ---------------------------------------------------------------------------
+# memcheck stages: the same harness and cases on the uninstrumented build under valgrind (see MEMCHECK above);
+# (property, harness, mode, quick, thorough)
+for _p, _h, _m, _q, _t in [
+        ('C01', 'c01', '', 16000, 320000), ('C02', 'c02', '', 3200, 64000), ('C04', 'c04', '', 2400, 48000),
+        ('C08', 'c08', '', 16000, 320000), ('C09', 'c09', 'tree', 3200, 64000), ('C09', 'c09', 'zoo', 48, 960),
+        ('C10', 'c10', '', 16000, 320000), ('C11', 'c11', '', 8000, 160000), ('C12', 'c12', 'save', 1600, 32000),
+        ('C13', 'c12', 'order', 64, 1280), ('C14', 'c14', '', 3200, 64000), ('C15', 'c15', 'model', 8000, 160000),
+        ('C15', 'c15', 'e2e', 4000, 80000), ('C16', 'c16', '', 3200, 64000), ('C17', 'c17', '', 16000, 320000),
+        ('C18', 'c18', '', 8000, 160000), ('C20', 'c20', '', 8000, 160000)]:
+    PROPS[_p]['stages'].append(MEMCHECK(_h, quick=_q, thorough=_t, mode=_m))
+    if 'memcheck' not in PROPS[_p]['technique']:
+        PROPS[_p]['technique'] += ' + valgrind memcheck pass over the same cases'
+        PROPS[_p]['level_note'] += ' A smaller sample of the same cases runs on the uninstrumented build under valgrind memcheck (use of uninitialised memory, invalid accesses ASan red zones miss).'
+if 'memcheck' not in PROPS['C19']['technique']:
+    PROPS['C19']['technique'] += ' + valgrind memcheck pass over the same cases'
+    PROPS['C19']['level_note'] += ' A smaller sample of the same cases runs on the uninstrumented build under valgrind memcheck (use of uninitialised memory).'
